@@ -32,6 +32,12 @@ func genC04(repo string) (string, error) {
 		return "", err
 	}
 	o.strList("alloc_sites", sites, "callers of the one id allocator")
+	// who names the key of the stored bound: the allocator alone (any other writer or reader would be a second way in)
+	ks, err := goast.LiteralSites(repo, []string{"server", "pkg"}, "alloc_id", "")
+	if err != nil {
+		return "", err
+	}
+	o.strList("alloc_id_key_sites", ks, "functions that contain the literal \"alloc_id\"")
 	// the split handlers: an id that could not be allocated fails the whole request
 	cw, err := goast.Load(repo, "server/cluster/cluster_worker.go")
 	if err != nil {
